@@ -209,6 +209,20 @@ def gen_kernel(isa, rng, n, shape=None, noise=True):
                 L.append(g.gmov(3 + j % 2, base))
             else:
                 L.append(g.fma(j % 4, 4 + j % 4, 8 + j % 4))
+    elif shape == "ladder":
+        # single-instruction LCDs first (pointer bumps, counters), then a ladder of k diamonds on one
+        # accumulator (2^k cycles through it, thousands of raw paths), then independent padding
+        k = 7
+        for j in range(3):
+            L.append(g.gadd_imm(j, 8))
+        for j in range(k):
+            L.append(g.op2(1, 0, 10, which=0))
+            L.append(g.op2(2, 0, 11, which=1))
+            L.append(g.op2(0, 1, 2, which=0))
+        j = 0
+        while len(L) < n + 1:
+            L.append(g.op2(12 + j % 3, 13, 14, which=j % 3) if j % 2 else g.gmov(5 + j % 3, 4))
+            j += 1
     else:  # mixed
         for j in range(n):
             r = rng.randrange(7)
